@@ -496,7 +496,7 @@ func CheckParallel(r *Run) []Finding {
 	}
 	cs := calls(e)
 	cancelled := scn.CancelK != CNone
-	coe := s.COE == "true" || (s.COE == "expr" && scn.COE)
+	coe := s.COE == "true" || s.COE == "bctrue" || (s.COE == "expr" && scn.COE)
 	canErr := s.UnitCanErr()
 	fails := func(u, elem int) bool {
 		o := e.outcomeFor(u, elem)
